@@ -168,6 +168,8 @@ func examples() []*exampleParser {
 			func(n int) string { return rep(`"${`, n) + "x" + rep(`}"`, n) },
 			func(n int) string { return `"` + rep("${a}", n) + `"` },
 			participle.Lexer(interpLexer)),
+		// a root grammar type implemented by user code (participle.Parseable)
+		mkExample[prWord]("parseable-root", []string{"a", " a ", "abc"}, nil, nil, participle.Lexer(coreLexer), participle.Elide("WS", "Comment")),
 	}
 }
 
@@ -294,6 +296,14 @@ func examplesRun(args []string) error {
 			}
 		}
 		fmt.Printf("%s\t%q\t%s\n", e.name, "", checkOutcome(e, ""))
+	}
+	// a leading byte-order mark is input like any other byte: whatever the lexer makes of it, errors stay located
+	for _, e := range examples() {
+		for _, v := range e.valid[:1] {
+			for _, in := range []string{"\ufeff" + v, "\ufeff" + v + " ]", "\ufeff\n" + v + "\x00"} {
+				fmt.Printf("%s\t%q\t%s\n", e.name, in, checkOutcome(e, in))
+			}
+		}
 	}
 	// string literals the lexer accepts but Unquote rejects, the bad escape preceded by multi-byte text and line breaks inside the
 	// token: the error must still denote a real location of the input
